@@ -487,6 +487,12 @@ CHECKS["C15"]["rule"] += (" Plus two parsers side by side: A is given a caller s
                           "dropped, the caller overwrites its slice; B, fed in between (sizes up to 100 kB), must still show "
                           "exactly the bytes it was fed.")
 
+CHECKS["C11"]["quick"]["tests"].append({"test": "TestC11Far", "checks": 30, "subchecks": 1})
+CHECKS["C11"]["thorough"]["tests"].append({"test": "TestC11Far", "checks": 40, "subchecks": 1})
+CHECKS["C11"]["rule"] += (" Plus far distances: OSAP over more than a MiB of bytes that are uniform over 256 values (expanded from one "
+                          "drawn seed) with 4-24 planted copies of 2..24 bytes at distances around the powers of two up to 2^20 and beyond; "
+                          "repeats are so rare in such a text that the exact optimum of every block is computed by the same dynamic "
+                          "program over an index of the minimum-match-length grams.")
 CHECKS["C15"]["quick"]["tests"].append({"test": "TestC15Volume", "checks": 6, "subchecks": 1})
 CHECKS["C15"]["thorough"]["tests"].append({"test": "TestC15Volume", "checks": 8, "subchecks": 1, "once": True,
                                            "env": {"VERIF_VOLUME_PARSERS": "1"}})
